@@ -82,9 +82,9 @@ def scenarios(ctx, tier):
 def key_of(sc):
     def cls(n, cap=32):
         return "0" if n == 0 else "<=cap" if n <= cap else "<=2cap" if n <= 2 * cap else ">2cap"
-    return "in=%s out=%s/%s handler=%s causes=%s flood=%s reconnect=%s up=%s%s" % (
+    return "in=%s out=%s/%s handler=%s causes=%s flood=%s reconnect=%s up=%s calls=%s%s" % (
         cls(sc["in"]), cls(sc["out"]), sc["out_by"], sc["handler"], "+".join(sc["causes"]), sc["flood"], sc["reconnect"], sc["connect_while_up"],
-        " tracking" if sc["tracking"] else "")
+        sc.get("calls", ""), (" tracking" if sc["tracking"] else "") + (" storm" if sc.get("storm") else ""))
 
 
 def collect(ctx, results, props):
